@@ -129,4 +129,126 @@ pub(crate) mod kani_verif {
     h!(c14_build_constants_L2small, check_build_constants(), 20);
     // @h name=c14_ots_private_L2small_w4 props=C14 tier=thorough kind=proved cfg=L2smallbig timeout=2400 funcs=lm_ots::keygen::generate_private_key contract="mixed-limit build: a level that uses the smallest allowed Winternitz parameter (w=4, p=35 at n=16) fits the generated capacities (no capacity panic) and derives x_i as in the default build"
     h!(c14_ots_private_L2small_w4, check_private_key::<16>(4), 40);
+
+    // ------------------------------------------------------------------ C08: chain starts for the LARGEST chain count (p = 265)
+    // A checking hash: instead of logging 265 pre-images (the log size dominates CBMC's cost) every finalisation checks the
+    // PRNG block layout on the spot against the expected (I, q, seed) and its own call counter, and returns a value that
+    // encodes the call number. Constant-size state, so n = 32 / w = 1 - the only parameter set with more than 256 chains,
+    // where the high byte of the 16-bit chain counter matters - is affordable.
+    use core::sync::atomic::{AtomicU8, AtomicUsize, Ordering};
+    use digest::{typenum::U32, FixedOutput, Output, OutputSizeUser, Update};
+    static CK_EXPECT: [AtomicU8; 52] = [const { AtomicU8::new(0) }; 52]; // I(16) q(4) seed(32)
+    static CK_CALLS: AtomicUsize = AtomicUsize::new(0);
+    static CK_BAD: AtomicUsize = AtomicUsize::new(0);
+    #[derive(Clone, Debug)]
+    pub struct CheckHash32 {
+        buf: [u8; 64],
+        len: usize,
+    }
+    impl Default for CheckHash32 {
+        fn default() -> Self {
+            CheckHash32 { buf: [0u8; 64], len: 0 }
+        }
+    }
+    impl PartialEq for CheckHash32 {
+        fn eq(&self, _: &Self) -> bool {
+            false
+        }
+    }
+    impl CheckHash32 {
+        fn out_of(k: usize) -> [u8; 32] {
+            let mut o = [0xa5u8; 32];
+            o[0] = k as u8;
+            o[1] = (k >> 8) as u8;
+            o[31] = (k as u8) ^ 0x3c;
+            o
+        }
+        fn check(&mut self) -> [u8; 32] {
+            let k = CK_CALLS.load(Ordering::Relaxed);
+            let mut ok = self.len == 23 + 32 && self.buf[20] == (k >> 8) as u8 && self.buf[21] == k as u8 && self.buf[22] == 0xff;
+            let mut i = 0;
+            while i < 20 {
+                ok = ok && self.buf[i] == CK_EXPECT[i].load(Ordering::Relaxed);
+                i += 1;
+            }
+            i = 0;
+            while i < 32 {
+                ok = ok && self.buf[23 + i] == CK_EXPECT[20 + i].load(Ordering::Relaxed);
+                i += 1;
+            }
+            if !ok {
+                CK_BAD.fetch_add(1, Ordering::Relaxed);
+            }
+            CK_CALLS.store(k + 1, Ordering::Relaxed);
+            self.len = 0;
+            Self::out_of(k)
+        }
+    }
+    impl Update for CheckHash32 {
+        fn update(&mut self, data: &[u8]) {
+            assert!(self.len + data.len() <= 64, "checking-hash buffer overflow (harness sizing)");
+            self.buf[self.len..self.len + data.len()].copy_from_slice(data);
+            self.len += data.len();
+        }
+    }
+    impl OutputSizeUser for CheckHash32 {
+        type OutputSize = U32;
+    }
+    impl FixedOutput for CheckHash32 {
+        fn finalize_into(mut self, out: &mut Output<Self>) {
+            let o = self.check();
+            out.copy_from_slice(&o);
+        }
+    }
+    impl HashChain for CheckHash32 {
+        const OUTPUT_SIZE: u16 = 32;
+        const BLOCK_SIZE: u16 = 64;
+        fn finalize(mut self) -> ArrayVec<[u8; MAX_HASH_SIZE]> {
+            ArrayVec::from_array_len(self.check(), 32)
+        }
+        fn finalize_reset(&mut self) -> ArrayVec<[u8; MAX_HASH_SIZE]> {
+            ArrayVec::from_array_len(self.check(), 32)
+        }
+    }
+    // @h name=c08_ots_private_n32_w1_idx props=C08,C09,C01 tier=quick kind=proved cfg=default timeout=900 funcs=lm_ots::keygen::generate_private_key contract="n=32, w=1 (p=265, the only set with more than 256 chains): hash call k absorbs exactly I || q || u16(k) || 0xff || seed for k = 0..264 and x_k is the k-th output; every I/q/seed; checking hash (layout checked at every finalisation)"
+    #[kani::proof]
+    #[kani::stub(zeroize::optimization_barrier, no_barrier)]
+    #[kani::stub(<[u8; 32] as tinyvec::Array>::default, fast_default)]
+    #[kani::unwind(270)]
+    fn c08_ots_private_n32_w1_idx() {
+        CK_CALLS.store(0, Ordering::Relaxed);
+        CK_BAD.store(0, Ordering::Relaxed);
+        let p = alg(1).construct_parameter::<CheckHash32>().unwrap();
+        let id: [u8; 16] = kani::any();
+        let q: [u8; 4] = kani::any();
+        let sb: [u8; 32] = kani::any();
+        let mut i = 0;
+        while i < 16 {
+            CK_EXPECT[i].store(id[i], Ordering::Relaxed);
+            i += 1;
+        }
+        i = 0;
+        while i < 4 {
+            CK_EXPECT[16 + i].store(q[i], Ordering::Relaxed);
+            i += 1;
+        }
+        i = 0;
+        while i < 32 {
+            CK_EXPECT[20 + i].store(sb[i], Ordering::Relaxed);
+            i += 1;
+        }
+        let seed = Seed::<CheckHash32>::from(sb);
+        let k = generate_private_key(id, q, seed, p);
+        assert!(p.get_num_winternitz_chains() == 265, "n=32, w=1: p = 265");
+        assert!(CK_CALLS.load(Ordering::Relaxed) == 265, "p hash calls");
+        assert!(CK_BAD.load(Ordering::Relaxed) == 0, "every call absorbed I || q || u16(k) || 0xff || seed with its own k");
+        assert!(k.key.0.len() == 265, "p chain start values");
+        i = 0;
+        while i < 265 {
+            let o = CheckHash32::out_of(i);
+            assert!(k.key[i].len() == 32 && k.key[i][0] == o[0] && k.key[i][1] == o[1] && k.key[i][31] == o[31], "x_k == output of call k");
+            i += 1;
+        }
+        kani::cover!(true, "reachable");
+    }
 }
